@@ -97,6 +97,29 @@ def run(tier, seed):
         for what, s, exp in steps:
             pol, a = s.build()
             B.run_case(pol, a, "record", exp, f"key-history: {what}")
+    # 6. ... also when the key supplied now has the same LENGTH and the same cheap checksum (CRC-32, Adler-32 where it can be had) as one supplied before: a key is its bytes
+    import cbor2 as _cb, zlib as _z
+    for kind in (kinds[::3] if quick else kinds):
+        s = authcat.Scn(kind)
+        s.cred_id = b"twin-" + kind.encode()
+        pol, a = s.build()
+        first = authsim.Cred(kind)
+        second = authsim.Cred(kind, slot=authcat.ALT_CRED_SLOT)
+        m1 = dict(first.cose_map()); m1[-70001] = b"\x00\x01\x02\x03"
+        k1 = _cb.dumps(m1)
+        m2 = dict(second.cose_map()); m2[-70001] = bytes(4)
+        k2_ = _cb.dumps(m2)
+        if len(k2_) != len(k1) or k2_[-4:] != bytes(4):
+            continue
+        for what, fn in (("CRC-32", _z.crc32),):
+            sfx = fw.checksum_twin_suffix(k2_[:-4], fn(k1), fn)
+            if sfx is None:
+                continue
+            k2 = k2_[:-4] + sfx
+            assert fn(k2) == fn(k1) and k2 != k1 and _cb.dumps(_cb.loads(k2)) == k2
+            for rounds in range(2):
+                B.run_case(impl.AuthPolicy(pol.challenge, pol.rp_id, pol.origin, k1, pol.count, pol.require_uv), a, "record", "accept", f"checksum-twin keys ({what}): the signer's key stored")
+                B.run_case(impl.AuthPolicy(pol.challenge, pol.rp_id, pol.origin, k2, pol.count, pol.require_uv), a, ("record", "dict")[rounds], "reject", f"checksum-twin keys ({what}): another key of the same length and {what} stored")
     B.close()
     chk.notes.append({"oracle_queries": B.O.counts})
     fw.env_invariance(chk, "auth", "reg")          # the same seeded cases under -O / -OO, warnings-as-errors, other TZ / locale, a private CA bundle
